@@ -511,16 +511,24 @@ func (h *tkHarness) pull(s string, polls, max int) (string, string) {
 func init() {
 	register(&Rule{ID: "TOK.lossless", Floor: 4,
 		Doc: "each built-in tokenizer evaluated abstractly (TokenizeBuffer on the machine, all options off) over every string up to a bounded length over the alphabet of state-selecting character classes and a pool of longer strings: the token values concatenate to the input, only the final end-of-input token is empty",
-		Run: func(c *Ctx) []*Obligation { return tkEmit(c, "TOK.lossless", "lossless", "values concatenate to the input") }})
+		Run: func(c *Ctx) []*Obligation {
+			return tkEmit(c, "TOK.lossless", "lossless", "values concatenate to the input")
+		}})
 	register(&Rule{ID: "TOK.position", Floor: 4,
 		Doc: "same runs: every token reports the forward-scan line and column of its first character (LF, CR, CRLF, LFCR each one break), the end-of-input token one column past the last character",
-		Run: func(c *Ctx) []*Obligation { return tkEmit(c, "TOK.position", "position", "positions equal the forward scan") }})
+		Run: func(c *Ctx) []*Obligation {
+			return tkEmit(c, "TOK.position", "position", "positions equal the forward scan")
+		}})
 	register(&Rule{ID: "TOK.options", Floor: 4,
 		Doc: "for option combinations (quick: each option alone, all, and mixed sets; thorough: all 127) the stream equals the option-free stream with whole tokens dropped or rewritten as the statement lists, each token at the position of the token it came from; decoded values are the tokenizer's own DecodeString of the raw token",
-		Run: func(c *Ctx) []*Obligation { return tkEmit(c, "TOK.options", "options", "optioned streams equal the rewritten option-free stream") }})
+		Run: func(c *Ctx) []*Obligation {
+			return tkEmit(c, "TOK.options", "options", "optioned streams equal the rewritten option-free stream")
+		}})
 	register(&Rule{ID: "TOK.reuse", Floor: 4,
 		Doc: "every ordered pair of a pool (every multi-character symbol, every token class, unterminated literals) on one instance against a fresh instance; pull iteration with 0, 1 and 3 HasNextToken queries per token against TokenizeBuffer; a new input after an abandoned iteration",
-		Run: func(c *Ctx) []*Obligation { return tkEmit(c, "TOK.reuse", "reuse", "results do not depend on history or on has-next queries") }})
+		Run: func(c *Ctx) []*Obligation {
+			return tkEmit(c, "TOK.reuse", "reuse", "results do not depend on history or on has-next queries")
+		}})
 }
 
 func tkEmit(c *Ctx, rule, check, okText string) []*Obligation {
